@@ -471,6 +471,13 @@ func (c *Cluster) Do(a Action) bool {
 	if c.viol != nil {
 		return false
 	}
+	if abortRun.Load() {
+		// the per-run wall-clock limit was exceeded (watchdog): the run is
+		// abandoned; it is counted under foreign "ABANDONED/wall_clock" and
+		// nothing is concluded from it
+		c.viol = &Violation{Property: "ABANDONED", Oracle: "wall_clock", Sig: "wall_clock", Step: c.step, Msg: "run abandoned: per-run wall-clock limit exceeded"}
+		return false
+	}
 	c.NewFlights = c.NewFlights[:0]
 	c.SnapSent = c.SnapSent[:0]
 	c.step++
